@@ -80,11 +80,18 @@ def write_case(cid, rnd):
     return c
 
 
-def array_case(cid, rnd):
-    read_as = rnd.choice(["u8", "u16", "u32", "u64"])
+def array_case(cid, rnd, force_n=0):
+    read_as = rnd.choice(["u8", "u16"] if force_n else ["u8", "u16", "u32", "u64"])
     elem = DESTS[read_as][1]
     n = rnd.choice([0, 1, 2, 3, 7, 8, 15, 16])
     data = [rnd.randint(0, 255) for _ in range(n * elem)]
+    if force_n or (elem <= 2 and rnd.random() < 0.12):
+        # a destination for the longest list there is (sub-index 0 = 255)
+        n = force_n or rnd.choice([255, 255, 254, 17, 100])
+        data = [rnd.randint(0, 255) for _ in range(n * elem)]
+        return dict(id=cid, op="transfer", object=data, index=0x1C13, sub=0, mailbox_size=rnd.choice([16, 32, 128]), mode="auto",
+                    seg_sizes=[], compat=False, read_as=read_as, stale_out_mailbox=False, dir="read_array", value=[],
+                    complete=False, inject="none", array_cap=255)
     if rnd.random() < 0.5 or elem > 4:
         return dict(id=cid, op="transfer", object=data, index=0x1C13, sub=0, mailbox_size=rnd.choice([16, 32, 128]), mode="auto",
                     seg_sizes=[], compat=False, read_as=read_as, stale_out_mailbox=False, dir="read_array", value=[],
@@ -135,7 +142,7 @@ def project(c):
         plan = [dict(dir="read", sub=0, obj=[min(n, 255)], data=[], dest=dict(kind="exact", n=1))]
         plan += [dict(dir="read", sub=i + 1, obj=obj[i * elem:(i + 1) * elem], data=[], dest=dict(kind="exact", n=elem))
                  for i in range(n)]
-        expect_result = "ok" if n <= 16 else "err:Capacity"
+        expect_result = "ok" if n <= case.get("array_cap", 16) else "err:Capacity"
         expect_value = obj[:n * elem]
     elif d == "write":
         v = case["value"]
@@ -190,6 +197,8 @@ def run_c15(sc, q, rnd):
         cases.append(write_case(f"w{i}", rnd))
     for i in range(30 if q else 500):
         cases.append(array_case(f"a{i}", rnd))
+    cases.append(array_case("a255", rnd, force_n=255))
+    cases.append(array_case("a254", rnd, force_n=254))
     raw = sc.run_cases("transfer", cases, binary="vsim2")
     trace = os.path.join(sc.wd, "transfer.proj.ndjson")
     with open(raw) as fi, open(trace, "w") as fo:
